@@ -553,6 +553,27 @@ func runQueue(kv map[string]string) string {
 		}
 		stop.Store(true)
 		wg.Wait()
+	} else if dur > 0 {
+		// (round 6) a long run: when the aggregator's Run gives up in the middle of it (phout returns on the first write
+		// error and never empties its queue again) the reporters block for ever — that IS the observation
+		wgDone := make(chan struct{})
+		go func() { wg.Wait(); close(wgDone) }()
+		select {
+		case <-wgDone:
+			cancel()
+		case early := <-res:
+			stop.Store(true)
+			select {
+			case <-wgDone:
+			case <-time.After(2 * time.Second):
+			}
+			cancel()
+			res <- early
+		case p := <-pan:
+			return p
+		case <-time.After(dur + 60*time.Second):
+			return "HANG"
+		}
 	} else {
 		wg.Wait()
 		cancel() // every Report has returned
